@@ -15,6 +15,7 @@ CONSTANTS LineAlphabet, LineMaxLen
 N1 == {"a", "`", "\n", " "}
 N2 == {"a", "*", "\n", " "}
 N3 == {"a", "\\", "\n", " ", "*"}
+N4 == {"a", "<", ">", "\n", " ", "/"}           \* raw HTML tags across lines
 
 (* the lines of a text *)
 RECURSIVE SplitNl(_)
@@ -31,9 +32,12 @@ RECURSIVE NoSp(_)
 NoSp(l) == IF l = << >> THEN << >> ELSE IF Head(l) = " " THEN NoSp(Tail(l)) ELSE <<Head(l)>> \o NoSp(Tail(l))
 RuleLike(l) == LET c == NoSp(l) IN Len(c) >= 3 /\ \A i \in DOMAIN c : c[i] = "*"
 BulletLike(l) == Len(l) >= 1 /\ l[1] = "*" /\ (Len(l) = 1 \/ l[2] = " ")
+(* a first line that is a complete tag (followed by spaces only) starts an HTML block of kind 7; a line that begins with ">" a quote *)
+TagLine(l) == l # << >> /\ l[1] = "<" /\ LET e == HtmlTagEnd(l, 1) IN e > 0 /\ \A q \in (e + 1)..Len(l) : l[q] = " "
 OneParagraph(t) ==
     LET ls == SplitNl(t) IN
     /\ t[1] \notin {" ", "\n"} /\ t[Len(t)] \notin {" ", "\n"}
+    /\ ~TagLine(ls[1]) /\ \A i \in DOMAIN ls : LStripSp(ls[i]) = << >> \/ Head(LStripSp(ls[i])) # ">"
     /\ \A i \in DOMAIN ls : LStripSp(ls[i]) # << >> /\ ~FenceLike(LStripSp(ls[i])) /\ ~RuleLike(ls[i]) /\ ~BulletLike(LStripSp(ls[i]))
 (* what the inline phase sees: continuation lines without their indentation *)
 ParaText(t) == LET ls == SplitNl(t) IN JoinNl([i \in DOMAIN ls |-> IF i = 1 THEN ls[i] ELSE LStripSp(ls[i])])
